@@ -1392,12 +1392,43 @@ func (e *BigMessage) ReadAll() ([]byte, error) {
 	if e.Client.bigMessage != e {
 		return nil, errors.New("mqtt: read window expired for a big message")
 	}
-	e.Client.bigMessage = nil
+	c := e.Client
+	c.bigMessage = nil
+
+	if c.PauseTimeout != 0 {
+		// Abandon timer to prevent waking up the system for no good reason.
+		// https://developer.apple.com/library/archive/documentation/Performance/Conceptual/EnergyGuide-iOS/MinimizeTimerUse.html
+		defer c.readConn.SetReadDeadline(time.Time{})
+	}
 
 	message := make([]byte, e.Size)
-	_, err := io.ReadFull(e.Client.bufr, message)
-	if err != nil {
-		return nil, err
+	for done := 0; done < len(message); {
+		if c.PauseTimeout != 0 {
+			err := c.readConn.SetReadDeadline(time.Now().Add(c.PauseTimeout))
+			if err != nil {
+				return nil, err // deemed critical
+			}
+		}
+
+		n, err := c.bufr.Read(message[done:])
+		done += n
+		if err == nil {
+			continue
+		}
+
+		// Allow deadline expiry if at least one byte was transferred.
+		var ne net.Error
+		if n != 0 && errors.As(err, &ne) && ne.Timeout() {
+			continue
+		}
+
+		// The read routine can't continue halfway the message.
+		c.readConn.Close()
+		if errors.Is(err, io.EOF) {
+			err = io.ErrUnexpectedEOF
+		}
+		return nil, fmt.Errorf("mqtt: got %d out of %d bytes from big message: %w",
+			done, len(message), err)
 	}
 	return message, nil
 }
